@@ -11,7 +11,8 @@ def engine_traces(run, profile, n, length=0, states="both", label=None, extra=No
     if length:
         args += ["-len", str(length)]
     args += extra or []
-    run.run_bin(drv, args, timeout=1500)
+    if run.run_driver(drv, args, timeout=1500, stage=label) is None:
+        return None
     rejected, tlcout = run.validate("EngineTrace.tla", "EngineTrace.cfg", out, label)
     for ln in rejected:
         run.reject(out, ln, stage=label)
@@ -95,6 +96,14 @@ def c20(run):
         "capacity: seeded add/remove histories around MaxFacts=3 (facts, rules, property facts), StateSize after adds; "
         "TLC checks refusal exactly at capacity and no side effect of a refused add")
 
+def c04(run):
+    return engine_prop(run, ["MC_rules.cfg"],
+        [dict(profile="dispatch", n=n(run, 80, 1000)), dict(profile="rules", n=n(run, 20, 200), label="rules-tree")],
+        "seeded histories over two locations (facts over a narrow value space, rules with multi-binding when patterns, "
+        "conditions pattern/and/or/not/code, 1-3 actions that return {tag, their visible bindings}, return a number, or throw); "
+        "for every event TLC compares the whole work tree (per rule and when-binding: condition outcome, bag of executions "
+        "with bindings), each execution's disposition and value, and the values list with Engine!OpProcessEvent")
+
 def c05(run):
     q = run.tier == "quick"
     run.model_check("MatchMC.tla", "MC_match.cfg" if q else "MCT_match.cfg")
@@ -147,7 +156,7 @@ def c03(run):
                            "indexed and linear state, through Location.Query; TLC compares the returned bindings as a BAG with Query!Eval; "
                            "states/transitions: QueryMC (algebraic laws of Eval on all trees up to depth 1/2 x all fact subsets)")
 
-CHECKS = {"C01": c01, "C03": c03, "C05": c05, "C02": c02, "C07": c07, "C08": c08, "C09": c09, "C10": c10, "C19": c19, "C20": c20}
+CHECKS = {"C01": c01, "C03": c03, "C04": c04, "C05": c05, "C02": c02, "C07": c07, "C08": c08, "C09": c09, "C10": c10, "C19": c19, "C20": c20}
 
 def replay(run, path):
     rejected, out = run.validate("EngineTrace.tla", "EngineTrace.cfg", path, "replay")
